@@ -1866,3 +1866,71 @@ func scenSelfRemoveRead(x *Ctx) {
 }
 
 func init() { Registry["w2.selfremoveread"] = scenSelfRemoveRead }
+
+// ---------------------------------------------------------------- C09: an uncommitted configuration whose entry is discarded by a snapshot installation
+
+// scenCfgDiscard: the isolated leader accepts a membership change (appended, in use, never committed). The others
+// elect a leader and move past a snapshot. When the old leader returns its whole log is replaced by the snapshot:
+// the configuration it took from that log exists nowhere any more and must not stay in use.
+func scenCfgDiscard(x *Ctx) {
+	r := x.R
+	all, a, ok := x.startStatic(3)
+	if !ok {
+		return
+	}
+	thr := x.C.Opts.FSM.SnapThreshold
+	if thr <= 0 {
+		x.Inconclusive("needs snapshots")
+		return
+	}
+	x.Writes(1, a, 2, time.Second)
+	x.Step("isolate leader %s; it accepts AddServer(m1) (uncommitted)", a)
+	x.C.Net.Partition([]string{a}, x.others(a))
+	if !x.ensureNode("m1") {
+		return
+	}
+	// a long uncommitted tail first, so that the configuration entry lies beyond the snapshot the others will take
+	wt := x.WritesAsync(5, a, 2*thr+6, 100*time.Millisecond)
+	time.Sleep(30 * time.Millisecond)
+	go x.memberOp(a, true, "m1", r.Intn(2) == 0, 300*time.Millisecond)
+	wt()
+	x.WaitFor(time.Second, func() bool {
+		s := x.C.Node(a).Sample()
+		if s == nil || s.Cfg == nil {
+			return false
+		}
+		_, in := s.Cfg.Members["m1"]
+		return in
+	})
+	l2 := x.C.WaitLeaderAmong(x.others(a), 6*x.ET()+2*time.Second)
+	if l2 == "" {
+		x.Inconclusive("no second leader")
+		return
+	}
+	x.Writes(2, l2, thr+3, time.Second)
+	if !x.WaitFor(3*time.Second, func() bool { s := x.C.Node(l2).Sample(); return s != nil && s.LII > 3 }) {
+		x.Inconclusive("no snapshot on the new leader")
+		return
+	}
+	x.Step("heal: %s receives the snapshot of %s, then entries beyond the index of its configuration", a, l2)
+	x.C.Net.ClearLinks()
+	x.Writes(3, l2, 2*thr+10, time.Second)
+	time.Sleep(4 * x.ET())
+	for i := 0; i < 5; i++ {
+		x.C.Node(a).Sample()
+		time.Sleep(2 * time.Millisecond)
+	}
+	if r.Intn(2) == 0 {
+		// does the node act on the stale configuration? cut the new leader off and let the old one try to lead
+		x.Step("isolate %s; writes at whoever leads the other two", l2)
+		x.C.Net.Partition([]string{l2}, minus(all, []string{l2}))
+		if l3 := x.C.WaitLeaderAmong(minus(all, []string{l2}), 6*x.ET()+2*time.Second); l3 != "" {
+			x.Writes(4, l3, 2, time.Second)
+		}
+	}
+	x.NT("uncommitted-configuration-discarded-by-install")
+	x.C.Net.Heal()
+	x.finishDirected()
+}
+
+func init() { Registry["w2.cfgdiscard"] = scenCfgDiscard }
